@@ -580,11 +580,15 @@ private:
     auto& wheel = _wheels[level];
     auto& bucket = wheel.buckets[wheel.currentTick & _tickMask];
 
-    auto* entry = bucket.head;
+    // Detach the chain first: a delay beyond the top level's range wraps, so a
+    // re-inserted entry may land in this same bucket and must not be revisited.
+    Bucket chain = bucket;
+    bucket = Bucket{};
+    auto* entry = chain.head;
     while (entry)
     {
       auto* next = entry->next;
-      bucket.unlink(entry);
+      chain.unlink(entry);
 
       if (entry->deadline <= now)
       {
